@@ -18,7 +18,7 @@ IMPORTS = {
     ],
     "C02": [
         # NOT adopted: C04/K1, K6 (the calibration of tau): a key released above a too low threshold is still thresholded - C04's matter, not a plain function of protected rows
-        ("C04", ["K2", "K3", "K4", "K5", "B1", "B2", "B3"], None,
+        ("C04", ["K2", "K3", "K4", "K5", "K7", "B1", "B2", "B3"], None,
          "the grouping-key columns of a DP result are plain functions of protected rows: they may leave only through the tau-thresholding pipeline "
          "(cap, count of units, noise, strict threshold, projection) or from declared public values"),
         ("C13", ["G1", "G2", "G4"], None,
@@ -52,6 +52,7 @@ IMPORTS = {
          "Join::size bounds the row count by max(|left|, |right|) instead of the product as soon as a join key is declared UNIQUE / PRIMARY KEY "
          "(JoinOperator::has_unique_constraint reads the field constraints): a column wrongly declared unique makes the declared size interval too small"),
         ("C15", ["H5"], None, "a table reference bound to another CTE of the same name gives the relation the schema (and size) of another query"),
+        ("C08", ["E22"], None, "the operands of a set operation are compiled in the order written: `A EXCEPT B` read as `B EXCEPT A` declares B's column types and size for rows that come from A"),
     ],
     "C08": [
         ("C15", None, None, "reading SQL binds every table and column name: a name bound to another candidate gives a relation - hence a rendering - with another meaning"),
@@ -62,7 +63,10 @@ IMPORTS = {
         ("C06", ["M", "P", "A", "O2", "S"], None,
          "the clipping constant is the bound of the range propagated for the aggregated expression (times the multiplicity) and the result is clamped to the "
          "propagated type: a range that misses values the expression takes clips / clamps in-range data"),
-        ("C05", ["Y1", "Y1b", "Y7"], None,
+        ("C01", ["S2", "S3"], None,
+         "'clipping is inactive when no unit exceeds the bound': the factor must be exactly 1 / max(1, norm / C) of the true L2 norm (sum by unit and group, square, sum by unit, SQRT) - "
+         "a norm that misses its square root, or another factor term, scales down units that are within the bound"),
+        ("C05", ["Y1", "Y1b", "Y5", "Y7"], None,
          "the DP aggregation runs over the privacy-unit-tracked input: the tracked join must keep the query's own operator and ON condition (the unit equality is conjoined, not substituted) or rows are "
          "duplicated / lost; rows whose unit id is NULL get a NULL scale factor (NULL = NULL is not true in the join with the factors) and vanish from every sum"),
         ("C04", ["K5"], None,
@@ -79,7 +83,19 @@ IMPORTS = {
     "C11": [
         # NOT adopted: C12/J2 - the cross-variant arms re-test `image.is_subset_of(other)`; an arm that trusts the injection instead (`.is_ok()`) is tied to J2 by C11/L3 itself.
         # J4 only for pairs dispatched from Base<X, DataType> (the API-only pair DateTime -> Date is not reachable from the lattice operations)
+        ("C12", ["J8"], None, "super_union / super_intersection of two different variants loop on into_common_super_variant, which converts with `other.maximal_superset()`: a variant left to the default arm "
+         "(Any) is never brought into the other's variant and the union of date and datetime recurses until the stack overflows instead of answering datetime"),
         ("C12", ["J4"], r"@dispatched", "the cross-variant arms of is_subset_of / super_union / super_intersection convert one side with the injection: an image that misses values of the converted side loses them from the union / answers `subset` wrongly"),
+    ],
+    "C13": [
+        ("C05", ["T5"], None,
+         "the rules are attached by RewritingRulesSetter::table and applied by PrivacyUnitTracking::table: when the two do not select the protected tables with the same predicate, "
+         "a derivation that the search found is refused when it is applied - the compiler aborts although a consistent derivation exists"),
+    ],
+    "C14": [
+        ("C08", ["E9"], None,
+         "the property is about the EXECUTED result: the uniqueness flags are computed on the expression tree of the ON clause, the engine runs its rendering - "
+         "an operand that loses its parentheses (`k AND a OR b`) makes the executed join match other rows than the one the flags were computed for"),
     ],
     "C15": [
         ("C08", ["E10"], None,
@@ -89,7 +105,7 @@ IMPORTS = {
     "C16": [
         # NOT adopted: E10, E11, E15 decide how SQL is READ (GROUP BY alias, WHERE of the builders, split order): a mis-read query still renders and re-reads
         # to the same relation, so C16's fixpoint holds.
-        ("C08", ["E3", "E4", "E5", "E7", "E8", "E9", "E12", "E13", "E16", "E17", "E18", "E20", "E21"], None,
+        ("C08", ["E3", "E4", "E5", "E7", "E8", "E9", "E12", "E13", "E16", "E17", "E18", "E20", "E21", "E23"], None,
          "re-parsing the rendered SQL must reproduce the semantics and the output schema of the relation it came from: every operator is rendered under a spelling "
          "read back as the same operator, every node component, alias, parenthesis, CASE branch and CTE is rendered where the reader expects it"),
     ],
@@ -97,6 +113,7 @@ IMPORTS = {
         ("C16", ["D5"], None, "CTEs are named by content hashes (namer::name_from_content): two different nodes with one hash are two CTEs of one name - invalid SQL in every dialect"),
     ],
     "C18": [
+        ("C08", ["E3"], None, "rendering is part of the compilation: an operator the reader or the rewritings produce and the renderer routes to its `_ => todo!()` arm makes `ast::Query::from(&relation)` abort"),
         ("C01", ["S3"], r"@factor-zero",
          "the `C == 0` arm of the clip factor keeps 0 / 0 out of range propagation: the image of `divide` on a denominator reduced to {0} aborts (finding C06/M divide), "
          "so the DP rewriting of a column whose bound is 0 panics without it"),
